@@ -2,13 +2,14 @@
 # usage: tools/trymutant.sh <patch.diff> <property id> [tier]
 # Applies the patch to a scratch worktree of /repo's HEAD (never to /repo itself), runs the check against it
 # (VERIF_REPO), removes the worktree.
+ROOT=$(cd "$(dirname "$0")/.." && pwd)
 P=$(readlink -f "$1"); ID=$2; TIER=${3:-quick}
 WT=/tmp/wt/mut-$$-$ID
 git -C /repo worktree add -q --detach $WT HEAD || exit 3
 cd $WT
 if ! git apply --check "$P" 2>/dev/null; then echo "PATCH DOES NOT APPLY"; cd /; git -C /repo worktree remove --force $WT; exit 3; fi
 git apply "$P"
-cd /verif && VERIF_REPO=$WT ./check $ID --tier $TIER > /verif/run/mut-$ID.out 2>&1; RC=$?
+mkdir -p $ROOT/run; cd $ROOT && VERIF_REPO=$WT ./check $ID --tier $TIER > $ROOT/run/mut-$ID.out 2>&1; RC=$?
 git -C /repo worktree remove --force $WT
-grep -E "VIOLATION|KNOWN|INFRA" /verif/run/mut-$ID.out | head -3
+grep -E "VIOLATION|KNOWN|INFRA" $ROOT/run/mut-$ID.out | head -3
 echo "exit=$RC"
